@@ -361,6 +361,7 @@ class Snap:
                     aid = names["alloca"].setdefault(outs[0] if outs else id(ins), len(names["alloca"]) + 1)
                 blk.append((ins.opcode, ops, outs, Effects.MEMORY in we, Effects.RETURNDATA in we, aid))
             self.blocks.append(blk)
+        self.ann = {}      # (block, index) -> [None | operand] per operand of an invoke (see annotate)
 
     def v(self, var):
         k = var.value if hasattr(var, "value") else str(var)
@@ -374,13 +375,40 @@ class Snap:
             return f"OLit {coqrun.hexlit(v)}"
         return f"OVar {v}%N" if k == "var" else f"OLab {v}%N"
 
+    def c_ann(self, key):
+        a = self.ann.get(key)
+        if not a:
+            return "[]"
+        return "[" + "; ".join("None" if o is None else f"Some ({self.c_op(o)})" for o in a) + "]"
+
     def c_func(self):
         bl = []
-        for blk in self.blocks:
+        for bi, blk in enumerate(self.blocks):
             ins = "; ".join(f'mkI "{op}" [{"; ".join(self.c_op(o) for o in ops)}] [{"; ".join(f"{x}%N" for x in outs)}] '
-                            f'{"true" if wm else "false"} {"true" if wrd else "false"} {aid}' for op, ops, outs, wm, wrd, aid in blk)
+                            f'{"true" if wm else "false"} {"true" if wrd else "false"} {aid} {self.c_ann((bi, j))}'
+                            for j, (op, ops, outs, wm, wrd, aid) in enumerate(blk))
             bl.append(f"[{ins}]")
         return "[" + ";\n ".join(bl) + "]"
+
+    # ---- structural helpers (single-definition assign chains)
+    def defs(self):
+        d = {}
+        for bi, blk in enumerate(self.blocks):
+            for j, ins in enumerate(blk):
+                for x in ins[2]:
+                    d.setdefault(x, []).append((bi, j, ins))
+        return d
+
+    def root(self, o, defs):
+        """assign-root of an operand through single-definition assigns"""
+        seen = set()
+        while o[0] == "var" and o[1] not in seen:
+            seen.add(o[1])
+            ds = defs.get(o[1], [])
+            if len(ds) != 1 or ds[0][2][0] != "assign" or len(ds[0][2][1]) != 1:
+                break
+            o = ds[0][2][1][0]
+        return o
 
 
 BOT = "bot"
@@ -517,9 +545,236 @@ class Observer:
             after = Snap(fn, names=before.names)
             obs.n_invocations[name] = obs.n_invocations.get(name, 0) + 1
             if after.blocks != before.blocks:
-                obs.records.append({"pass": name, "fn": before.fname, "before": before, "after": after, "context": obs.context})
+                rec = {"pass": name, "fn": before.fname, "before": before, "after": after, "context": obs.context}
+                if name != "MemoryCopyElisionPass":
+                    try:
+                        rec["roles"], rec["recheck"] = invoke_roles(self_, fn, before)
+                        annotate(before, after, rec["roles"])
+                    except Exception as e:  # noqa
+                        rec["export_error"] = f"{type(e).__name__}: {e}"
+                obs.records.append(rec)
             return r
         return run_pass
+
+
+PURE_READERS = ("mload", "sha3", "sha3_64", "iszero", "eq", "lt", "gt", "slt", "sgt", "call", "staticcall", "delegatecall", "create", "create2",
+                "log", "return", "revert", "mcopy", "mstore", "calldatacopy", "codecopy", "returndatacopy", "dloadbytes", "extcodecopy")
+
+
+def readonly_recheck(callee, idx, claimed):
+    """independent syntactic re-check of one read-only fact of ReadonlyMemoryArgsGlobalAnalysis on the callee body: no
+    instruction writes memory through a pointer derived from parameter idx (derived = closure under assign / add / sub / phi over
+    EVERY definition of a variable, so multiply-defined pre-SSA variables are covered), the pointer does not escape into another
+    value, and it is passed on only to read-only parameters.  -> None if ok, else the reason"""
+    from vyper.venom.call_layout import FunctionCallLayout, InvokeLayout
+    from vyper.venom.memory_location import memory_write_ops
+    params = FunctionCallLayout(callee).user_params
+    if idx >= len(params):
+        return f"no user parameter {idx}"
+    derived = {params[idx].output}
+    insts = [ins for bb in callee.get_basic_blocks() for ins in bb.instructions]
+    changed = True
+    while changed:
+        changed = False
+        for ins in insts:
+            if ins.opcode in ("assign", "add", "sub", "phi") and any(o in derived for o in ins.operands):
+                for o in ins.get_outputs():
+                    if o not in derived:
+                        derived.add(o)
+                        changed = True
+    for ins in insts:
+        for pos, o in enumerate(ins.operands):
+            if o not in derived or ins.opcode in ("assign", "add", "sub", "phi"):
+                continue
+            if ins.opcode == "invoke":
+                lay = InvokeLayout(callee.ctx, ins)
+                k = lay.user_arg_index(pos)
+                c2 = lay.callee
+                if k is None or c2 is None or pos == lay.return_buffer_operand_pos or k not in claimed.get(c2, ()):
+                    return f"passed on to a parameter that is not read-only: {ins}"
+                continue
+            w = memory_write_ops(ins).ofst
+            if w is not None and w == o:
+                return f"written through: {ins}"
+            if ins.opcode not in PURE_READERS:
+                return f"escapes into {ins}"
+            if ins.opcode == "mstore" and pos == 0:
+                return f"stored as a value: {ins}"
+    return None
+
+
+def invoke_roles(pass_obj, fn, before):
+    """per invoke of fn (positions are stable across the pass): callee name and, per operand, 'ro' / 'rw' / 'ret' / 'other';
+    the read-only facts come from the pass's own ReadonlyMemoryArgsGlobalAnalysis and are re-checked on the callee bodies"""
+    from vyper.venom.call_layout import InvokeLayout
+    roa = pass_obj.readonly_memory_args
+    claimed = dict(roa.readonly_idxs_by_fn)
+    blocks = list(fn.get_basic_blocks())
+    if blocks and blocks[0] is not fn.entry:
+        blocks.remove(fn.entry)
+        blocks.insert(0, fn.entry)
+    roles, recheck = {}, {}
+    for bi, bb in enumerate(blocks):
+        for j, ins in enumerate(bb.instructions):
+            if ins.opcode != "invoke":
+                continue
+            lay = InvokeLayout(fn.ctx, ins)
+            callee = lay.callee
+            rpos = lay.return_buffer_operand_pos
+            rl = []
+            for pos in range(len(ins.operands)):
+                k = lay.user_arg_index(pos)
+                if pos == 0 or k is None or callee is None:
+                    rl.append("other")
+                elif pos == rpos:
+                    rl.append("ret")
+                elif k in claimed.get(callee, ()):
+                    rl.append("ro")
+                    key = (str(callee.name), k)
+                    if key not in recheck:
+                        recheck[key] = readonly_recheck(callee, k, claimed)
+                else:
+                    rl.append("rw")
+            roles[(bi, j)] = (str(callee.name) if callee is not None else None, rl,
+                              [lay.user_arg_index(pos) for pos in range(len(ins.operands))])
+    return roles, recheck
+
+
+def annotate(before, after, roles):
+    """i_ann of every invoke (the same in both snapshots): Some size for an operand at a read-only position whose value is
+    staged by exactly one copy in the BEFORE function (size = that copy's size operand), else None"""
+    defs = before.defs()
+    copies = {}
+    for blk in before.blocks:
+        for ins in blk:
+            if ins[0] == "mcopy" and len(ins[1]) == 3:
+                r = before.root(ins[1][2], defs)
+                copies.setdefault(r, []).append(ins[1][0])
+    for key, (callee, rl, _) in roles.items():
+        bi, j = key
+        ops = before.blocks[bi][j][1]
+        ann = []
+        for o, role in zip(ops, rl):
+            r = before.root(o, defs)
+            cs = copies.get(r, [])
+            ann.append(cs[0] if role == "ro" and len(cs) == 1 else None)
+        before.ann[key] = ann
+        after.ann[key] = ann
+
+
+def split_readonly(rec):
+    """f -> f1 (operands redirected, staging copies kept: checked by check_func, rule R4) -> f' (dead staging copies removed:
+    dead_copy_check).  Returns the intermediate Snap-like record."""
+    import copy
+    mid = copy.copy(rec["after"])
+    mid.blocks = [list(b) for b in rec["after"].blocks]
+    removed = []
+    for bi, (bb, ba) in enumerate(zip(rec["before"].blocks, rec["after"].blocks)):
+        for j, (x, y) in enumerate(zip(bb, ba)):
+            if x != y and x[0] == "mcopy" and y[0] == "nop":
+                mid.blocks[bi][j] = x
+                removed.append((bi, j, x))
+    return mid, removed
+
+
+def uses_of_closure(snap, root_var):
+    """instructions using a variable of the assign-closure of root_var other than the assigns that build the closure"""
+    clo = {root_var}
+    ch = True
+    while ch:
+        ch = False
+        for blk in snap.blocks:
+            for ins in blk:
+                if ins[0] == "assign" and any(o == ("var", v) for o in ins[1] for v in clo):
+                    for x in ins[2]:
+                        if x not in clo:
+                            clo.add(x)
+                            ch = True
+    out = []
+    for bi, blk in enumerate(snap.blocks):
+        for j, ins in enumerate(blk):
+            if ins[0] != "assign" and any(o[0] == "var" and o[1] in clo for o in ins[1]):
+                out.append((bi, j, ins))
+    return clo, out
+
+
+def dead_copy_check(mid, after, removed):
+    """f1 -> f': a removed copy must write an allocation nothing reads afterwards: its destination is (an alias of) a singly
+    defined alloca whose assign-closure is, in f', used by no instruction (all uses were redirected).  -> None or reason"""
+    defs = after.defs()
+    for bi, j, x in removed:
+        r = mid.root(x[1][2], defs)
+        if r[0] != "var" or len(defs.get(r[1], [])) != 1 or defs[r[1]][0][2][0] != "alloca":
+            return f"destination of the removed copy at {bi}:{j} is not a singly defined alloca"
+        clo, uses = uses_of_closure(after, r[1])
+        if any(len(defs.get(v, [])) != 1 for v in clo):
+            return "alias of the staging buffer defined more than once"
+        if uses:
+            return f"staging buffer still used at {uses[0][0]}:{uses[0][1]} ({uses[0][2][0]})"
+    return None
+
+
+def internal_return_check(rec):
+    """InternalReturnCopyForwardingPass (unverified, syntactic; region renaming is outside copyfwd_check_sound): every change is
+    (a) mcopy dst, ret, n -> nop where dst / ret are singly defined allocas of size n, ret's closure is used in f only by this
+    copy (as source) and by ONE invoke, as its return buffer, earlier in the same block; (b) an operand of dst's closure
+    replaced by ret's root, in the same block after that copy; and in f' dst's closure is used by nothing.  -> None or reason"""
+    b, a = rec["before"], rec["after"]
+    ch = changes(rec)
+    if ch is None:
+        return "block structure changed"
+    defs = b.defs()
+    ren = {}      # block -> list of (index of copy, closure(dst), effective return buffer root, dst root)
+    alias = {}    # dst root of a forwarded copy -> (effective return buffer root, block, index)
+    for bi, j, x, y in ch:
+        if x[0] == "mcopy" and y[0] == "nop":
+            n, src, dst = x[1]
+            rd, rs = b.root(dst, defs), b.root(src, defs)
+            for r in (rd, rs):
+                if r[0] != "var" or len(defs.get(r[1], [])) != 1 or defs[r[1]][0][2][0] != "alloca":
+                    return f"copy at {bi}:{j}: operand root is not a singly defined alloca"
+                if n[0] != "lit" or defs[r[1]][0][2][1] != [("lit", n[1])]:
+                    return f"copy at {bi}:{j}: size differs from the alloca size"
+            if rd == rs:
+                return "copy onto itself"
+            clo_s, uses_s = uses_of_closure(b, rs[1])
+            if rs[1] in alias:
+                # a copy of a buffer that was itself forwarded: sound only if that buffer has no other use in f
+                eff, cbi, cj = alias[rs[1]]
+                if cbi != bi or cj >= j or any((ubi, uj) not in ((cbi, cj), (bi, j)) for ubi, uj, _ in uses_s):
+                    return f"copy at {bi}:{j} of a forwarded buffer that has other uses"
+            else:
+                inv = [(ubi, uj, ins) for ubi, uj, ins in uses_s if ins[0] == "invoke"]
+                other = [(ubi, uj, ins) for ubi, uj, ins in uses_s if ins[0] != "invoke" and (ubi, uj) != (bi, j)]
+                if other:
+                    return f"return buffer also used at {other[0][0]}:{other[0][1]} ({other[0][2][0]})"
+                if len(inv) != 1 or inv[0][0] != bi or inv[0][1] >= j:
+                    return "return buffer not filled by exactly one earlier invoke of the same block"
+                role = rec.get("roles", {}).get((inv[0][0], inv[0][1]))
+                pos = [k for k, o in enumerate(inv[0][2][1]) if o[0] == "var" and o[1] in clo_s]
+                if role is None or any(role[1][k] != "ret" for k in pos):
+                    return "return buffer passed to the invoke at a position that is not its return buffer"
+                eff = rs[1]
+            clo_d, _ = uses_of_closure(b, rd[1])
+            alias[rd[1]] = (eff, bi, j)
+            ren.setdefault(bi, []).append((j, clo_d, eff, rd[1]))
+    for bi, j, x, y in ch:
+        if x[0] == "mcopy" and y[0] == "nop":
+            continue
+        if x[0] != y[0] or x[2:] != y[2:] or len(x[1]) != len(y[1]):
+            return f"unexpected rewrite {x[0]} -> {y[0]} at {bi}:{j}"
+        for o, o2 in zip(x[1], y[1]):
+            if o == o2:
+                continue
+            ok = any(cj < j and o[0] == "var" and o[1] in clo and o2 == ("var", rs) for cj, clo, rs, _ in ren.get(bi, []))
+            if not ok:
+                return f"operand at {bi}:{j} replaced without a forwarded return buffer in scope"
+    for lst in ren.values():
+        for _, _, _, rd in lst:
+            _, uses = uses_of_closure(a, rd)
+            if uses:
+                return f"destination buffer still used at {uses[0][0]}:{uses[0][1]} ({uses[0][2][0]})"
+    return None
 
 
 def key_of(rec):
@@ -632,8 +887,28 @@ def part_copy_passes(ctx):
     for r in recs:
         stats["distinct_changed"][r["pass"]] = stats["distinct_changed"].get(r["pass"], 0) + 1
     todo, verdict = [], {}
+    RO, IR = "ReadonlyInvokeArgCopyForwardingPass", "InternalReturnCopyForwardingPass"
     for i, r in enumerate(recs):
-        why = domain(r) if r["pass"] == "MemoryCopyElisionPass" else "invoke copy forwarding (validated by the differential only)"
+        why = None
+        if r.get("export_error"):
+            why = "export failed: " + r["export_error"]
+        elif r["pass"] == "MemoryCopyElisionPass":
+            why = domain(r)
+            r["pair"] = r
+        elif r["pass"] == RO:
+            # f -> f1 (redirected operands, copies kept; check_func, rule R4) -> f' (dead staging copies removed)
+            mid, removed = split_readonly(r)
+            r["pair"] = {"before": r["before"], "after": mid}
+            r["dead"] = dead_copy_check(mid, r["after"], removed)
+            bad = {k: v for k, v in r.get("recheck", {}).items() if v}
+            r["recheck_bad"] = bad
+            if changes(r) is None:
+                why = "block structure changed"
+        elif r["pass"] == IR:
+            r["ir"] = internal_return_check(r)
+            verdict[i] = "accepted" if r["ir"] is None else "rejected"
+            r["why"] = {"internal_return_check": r["ir"]}
+            continue
         if why is None:
             todo.append(i)
         else:
@@ -641,12 +916,18 @@ def part_copy_passes(ctx):
             stats["unsupported_reasons"][why] = stats["unsupported_reasons"].get(why, 0) + 1
     if todo and (COQ / "C14C" / "CopyCheck.vo").exists():
         try:
-            outs = evaluate([recs[i] for i in todo])
+            outs = evaluate([recs[i]["pair"] for i in todo])
             for i, o in zip(todo, outs):
-                verdict[i] = "accepted" if o[0] == 1 else "rejected"
-                recs[i]["why"] = {"certs_ok": o[1], "blocks_ok": o[2]}
+                r = recs[i]
+                ok = o[0] == 1 and not r.get("dead") and not r.get("recheck_bad")
+                verdict[i] = "accepted" if ok else "rejected"
+                r["why"] = {"check_func": o[0], "certs_ok": o[1], "blocks_ok": o[2], "dead_copy_check": r.get("dead"),
+                            "readonly_recheck_failures": {f"{k[0]}#{k[1]}": v for k, v in r.get("recheck_bad", {}).items()}}
         except RuntimeError as e:
             ctx.violation("correspondence-broken", "check_func could not be evaluated on the exported invocations", {"error": str(e)[-1500:]})
+    stats["validated_by"] = {"MemoryCopyElisionPass": "check_func (copyfwd_check_sound)", RO: "check_func rule R4 (copyfwd_check_sound under ro_uniform) + "
+                             "dead_copy_check + readonly_recheck (syntactic, unverified)", IR: "internal_return_check (syntactic, unverified)"}
+    stats["readonly_facts_rechecked"] = sum(len(r.get("recheck", {})) for r in recs)
     t2 = time.time()
     entries = {c["name"]: c for c in progs}
     searched, reported = {}, 0
@@ -657,14 +938,14 @@ def part_copy_passes(ctx):
         if v != "rejected":
             continue
         prog, lvl = r["context"]
-        if (prog, lvl) not in searched:
+        if (prog, lvl, r["pass"]) not in searched:
             try:
                 from vlib.c14m_part import search
-                searched[(prog, lvl)] = search(entries[prog], lvl, r["pass"], ctx.seed, ctx.tier)
+                searched[(prog, lvl, r["pass"])] = search(entries[prog], lvl, r["pass"], ctx.seed, ctx.tier)
             except Exception as e:  # noqa
-                searched[(prog, lvl)] = None
+                searched[(prog, lvl, r["pass"])] = None
                 ctx.log(f"  c14c search failed for {prog}/{lvl}: {type(e).__name__}: {e}")
-        s = searched[(prog, lvl)]
+        s = searched[(prog, lvl, r["pass"])]
         ch = changes(r) or []
         detail = {"pass": r["pass"], "program": prog, "config": f"venom-{lvl}-cancun", "function": r["fn"], "theorem": "copyfwd_check_sound",
                   "checker": r.get("why"), "changes": [{"block": bi, "index": j, "before": fmt_inst(x, r["before"].names), "after": fmt_inst(y, r["before"].names)}
@@ -680,7 +961,8 @@ def part_copy_passes(ctx):
                                expected="same status / return data / logs / storage as legacy -O none"), key=f"C14C:{r['pass']}:{prog}")
         else:
             ctx.violation("theorem-broken", f"copyfwd_check_sound does not apply: {r['pass']} on {r['fn']} of {prog} ({lvl}) removes or redirects a "
-                          "copy that no valid copy fact justifies; no-failing-input-found", detail, key=f"C14C:reject:{r['pass']}:{prog}")
+                          "copy that the validator cannot justify (no valid copy fact / operand not read-only / buffer still live); "
+                          "no-failing-input-found", detail, key=f"C14C:reject:{r['pass']}:{prog}")
     if not b["ok"] and not reported:
         ctx.violation("theorem-broken", f"{b.get('failed_lemma')} in {b['file']}", {"theorem": b.get("failed_lemma"), "file": b["file"],
                                                                                      "coq_output": b["out"][-1500:]})
